@@ -12,7 +12,7 @@ fuzz_target!(|data: &[u8]| {
     let dict = &data[3..3 + l];
     let frame = &data[3 + l..];
     let entry = if data[2] & 1 == 0 { Entry::Blocks { strat: 1, n: 2, drain: data[2] >> 1 } } else { Entry::DecodeAll { target: 100_000 } };
-    if let Err(e) = drive_and_reuse(frame, &entry, None, Some(dict)) {
+    if let Err(e) = drive_and_reuse(frame, &entry, None, Some(dict), data[2] & 0x80 != 0) {
         panic!("C03: {e}");
     }
 });
